@@ -532,7 +532,8 @@ def wbem_request(conn, req_data, cimxml_headers, target_type='server'):
                 # convert to float and map from microsec to sec.
                 svr_resp_time = float(svr_resp_time) / 1000000
             except ValueError:
-                pass
+                # Ignore an invalid value; a string would break the statistics
+                svr_resp_time = None
     else:
         svr_resp_time = None
 
